@@ -476,12 +476,13 @@ def check_h5(ctx, tu, info):
             if not pi:
                 continue
             # every subscript of callbackListList uses PrototypeInfo::index
-            subs = [n for n, o in f.nodes.items() if o['cls'] == 'CXXOperatorCallExpr' and o.get('op') == '[]'
-                    and 'callbackListList' in fields_in(path(f, o['args'][0]))]
+            # (in the function itself and in the private helpers it is split into)
+            subs = f.deep_calls(lambda g, n: g.nodes[n]['cls'] == 'CXXOperatorCallExpr' and g.nodes[n].get('op') == '[]'
+                                and 'callbackListList' in fields_in(path(g, g.nodes[n]['args'][0])), depth=3)
             vals = set()
-            for n in subs:
-                a = f.strip_all_casts(f.nodes[n]['args'][1])
-                vals.add(f.nodes[a].get('cv', f.nodes[a].get('value')))
+            for (_top, g, n) in subs:
+                a = g.strip_all_casts(g.nodes[n]['args'][1])
+                vals.add(g.nodes[a].get('cv', g.nodes[a].get('value')))
             ctx.ob('C14.H5', f, 'doGetCallbackList<PI> touches only slot PI::index', vals == {pi[0]} and bool(subs),
                    detail='subscripts %s, index %s' % (sorted(v for v in vals if v is not None), pi[0]))
         if f.skey == 'HeterCallbackListBase::operator()':
